@@ -204,8 +204,23 @@ def decodeLine (bs : Bytes) : String :=
 
 namespace World
 
+/-- Ghost: dropping a future suspended at this await point leaves a packet half-written (the
+operation-local `write_all` of CONNECT, QoS 0 PUBLISH, DISCONNECT). -/
+def tearsPacket : Option Pc → Bool
+  | some (.connWrite _) => true
+  | some (.q0Write _) => true
+  | some (.discWrite _) => true
+  | _ => false
+
+/-- Ghost: `tornNets` after the suspended future (if any) has been dropped. -/
+def tornAfterDrop (w : World) : List Nat :=
+  if tearsPacket w.fut then w.nets.length :: w.tornNets else w.tornNets
+
 def cancelFut (w : World) : World :=
-  if w.fut.isSome then { (w.emit "cancel") with fut := none } else w
+  if w.fut.isSome then
+    -- `tornNets` is ghost: it remembers that the current transport may now carry a torn packet
+    { (w.emit "cancel") with fut := none, tornNets := w.tornAfterDrop }
+  else w
 
 def dropConn (w : World) : World :=
   let w := w.cancelFut
